@@ -195,7 +195,7 @@ def filter_ftrace(path, needed):
     return out, n
 
 
-def lattice_pipeline(families, tier, seed, sim=None, profile="release", features=None, tag="L", trace_cells=300,
+def lattice_pipeline(families, tier, seed, sim=None, profile="release", features=None, tag="L", trace_cells=1200,
                      own_tags=None):
     """TLC(VCell) -> cases -> harness replay-cells -> VCellTrace on the sampled trace and on the
     traces of all failing runs.  Returns a LatticeRun."""
@@ -407,7 +407,7 @@ def check_C01(tier, seed):
 
 
 def generic_lattice_check(prop, tier, seed, quick_fams, thorough_fams, sim_quick, sim_thorough, own_tags, verdict_props,
-                          rule, profiles=("release",), trace_cells=200, with_tess=False):
+                          rule, profiles=("release",), trace_cells=800, with_tess=False):
     out = Outcome(prop, tier, seed)
     fams = quick_fams if tier == "quick" else thorough_fams
     sim = sim_quick if tier == "quick" else sim_thorough
@@ -508,7 +508,7 @@ def check_C16(tier, seed):
         "safety radius of every replayed cell >= 2 * exact distance (active subspace) to the farthest point TLC computed "
         "and >= distance to every neighbour with a face; every recorded termination validated by VCellTrace (a builder "
         "that stops while a vertex is farther than half the distance to the next candidate is rejected)",
-        trace_cells=600, with_tess=True)
+        trace_cells=2000, with_tess=True)
     return out.finish()
 
 
